@@ -219,7 +219,11 @@ func (f *Formatter) formatSQL(sql string) (string, error) {
 	}()
 
 	// Configure formatter options
-	indentStr := strings.Repeat(" ", f.Opts.IndentSize)
+	indentSize := f.Opts.IndentSize
+	if indentSize < 0 {
+		indentSize = 0 // a negative --indent means no indentation, not a crash
+	}
+	indentStr := strings.Repeat(" ", indentSize)
 	formatterOpts := FormatterOptions{
 		Indent:       indentStr,
 		Compact:      f.Opts.Compact,
